@@ -2552,3 +2552,101 @@ Proof.
     cbn [rs_yip rs_router rs_sid rs_mask rs_dns rs_lease rs_routes rs_opts]. exact Ef.
   - repeat split; try assumption. intros Hd. apply V9; [cbn; lia|exact Hd|cbn; lia].
 Qed.
+
+(* ================================================================== DHCPv6: configuration + client message -> ADVERTISE / REPLY *)
+Lemma handle_resolved6_fields : forall sduid cmsg r qc duid,
+  parse_message6 cmsg = Some qc -> q_client qc = Some duid -> length (q_txid qc) = 3%nat ->
+  blen duid < 65536 -> blen sduid < 65536 ->
+  match q_iana qc, r6_na r with Some ia, Some (a, pr, va) => p_iaid ia < 4294967296 /\ pr < 4294967296 /\ va < 4294967296 /\ length a = 16%nat | _, _ => True end ->
+  match q_iapd qc, r6_pd r with Some ia, Some (ip, ones, pr, va) => p_iaid ia < 4294967296 /\ pr < 4294967296 /\ va < 4294967296 /\ length ip = 16%nat /\ ones <= 128 | _, _ => True end ->
+  Forall (fun d => exists a, d = Some a /\ length a = 16%nat) (r6_dns r) -> (length (r6_dns r) < 4096)%nat -> Forall raw6_ok (r6_opts r) ->
+  exists out q, handle_resolved6 sduid cmsg r = Some out /\ parse_message6 out = Some q /\
+    q_type q = (if q_type qc =? 1 then 2 else 7) /\ q_txid q = q_txid qc /\ q_client q = Some duid /\ q_server q = Some sduid /\
+    q_iana q = match q_iana qc, r6_na r with
+               | Some ia, Some (a, pr, va) => Some (ia_view (p_iaid ia) (pr / 2) (pr * 4 / 5) a 0 pr va) | _, _ => None end /\
+    q_iapd q = match q_iapd qc, r6_pd r with
+               | Some ia, Some (ip, ones, pr, va) => Some (ia_view (p_iaid ia) (pr / 2) (pr * 4 / 5) ip ones pr va) | _, _ => None end /\
+    q_dns q = map opt_bytes (r6_dns r) /\ q_status q = None.
+Proof.
+  intros sduid cmsg r qc duid Hp Hc Ltx Hd Hs Hna Hpd Hdns Ldns Hopts.
+  unfold handle_resolved6. rewrite Hp, Hc.
+  set (na := match q_iana qc, r6_na r with Some ia, Some (a, pr, va) => Some (p_iaid ia, a, pr, va) | _, _ => None end).
+  set (pd := match q_iapd qc, r6_pd r with Some ia, Some (ip, ones, pr, va) => Some (p_iaid ia, ip, ones, pr, va) | _, _ => None end).
+  assert (Hna' : match na with Some (iaid, addr, pref, valid) => iaid < 4294967296 /\ pref < 4294967296 /\ valid < 4294967296 /\ length addr = 16%nat | None => True end).
+  { subst na. destruct (q_iana qc); [|exact I]. destruct (r6_na r) as [[[a pr] va]|]; [exact Hna|exact I]. }
+  assert (Hpd' : match pd with Some (iaid, prefix, ones, pref, valid) => iaid < 4294967296 /\ pref < 4294967296 /\ valid < 4294967296 /\ length prefix = 16%nat /\ ones <= 128 | None => True end).
+  { subst pd. destruct (q_iapd qc); [|exact I]. destruct (r6_pd r) as [[[[ip ones] pr] va]|]; [exact Hpd|exact I]. }
+  assert (Hty : (if q_type qc =? 1 then 2 else 7) < 256) by (destruct (q_type qc =? 1); lia).
+  destruct (response6_fields _ (q_txid qc) duid sduid na pd (r6_dns r) (r6_opts r) Hty Ltx Hd Hs Hna' Hpd' Hdns Ldns Hopts)
+    as [q [E [T1 [T2 [T3 [T4 [T5 [T6 [T7 T8]]]]]]]]].
+  exists (build_response6 (if q_type qc =? 1 then 2 else 7) (q_txid qc) duid sduid na pd (r6_dns r) (r6_opts r)), q.
+  split; [reflexivity|]. split; [exact E|]. repeat split; try assumption.
+  - rewrite T5. subst na. destruct (q_iana qc); [|reflexivity]. destruct (r6_na r) as [[[a pr] va]|]; reflexivity.
+  - rewrite T6. subst pd. destruct (q_iapd qc); [|reflexivity]. destruct (r6_pd r) as [[[[ip ones] pr] va]|]; reflexivity.
+Qed.
+
+(* ResolveV6: which lifetimes reach the wire *)
+Lemma resolve_v6_spec : forall cx pf a,
+  c6_addr cx = Some a ->
+  exists r, resolve_v6 cx pf = Some r /\
+    r6_na r = Some (a, fst (lifetimes6 pf (find_pool6 a (f6_iana pf))), snd (lifetimes6 pf (find_pool6 a (f6_iana pf)))) /\
+    r6_pd r = match c6_prefix cx with
+              | Some (ip, ones) => Some (ip, ones, fst (lifetimes6 pf (find_pool6 ip (f6_pd pf))), snd (lifetimes6 pf (find_pool6 ip (f6_pd pf))))
+              | None => None end /\
+    r6_dns r = match c6_dns cx with [] => filter (fun d : option bytes => match d with Some _ => true | None => false end) (f6_dns pf) | l => l end.
+Proof.
+  intros cx pf a Ha. unfold resolve_v6. rewrite Ha. destruct (c6_prefix cx) as [[ip ones]|]; eexists; repeat split.
+Qed.
+Lemma lifetimes6_spec : forall pf pool,
+  lifetimes6 pf pool =
+  (match pool with Some p => if 0 <? p6_pref p then p6_pref p else dflt (f6_pref pf) 3600 | None => dflt (f6_pref pf) 3600 end,
+   match pool with Some p => if 0 <? p6_valid p then p6_valid p else dflt (f6_valid pf) 7200 | None => dflt (f6_valid pf) 7200 end).
+Proof. intros pf [p|]; reflexivity. Qed.
+
+(* ================================================================== ResolveV4: every branch *)
+(* the precedence rules of ResolveV4, as equations *)
+Lemma resolve_v4_precedence : forall cx pf,
+  let r := resolve_v4 cx pf in let pool := find_pool (cx_addr cx) (pf_pools pf) in
+  rs_yip r = Some (cx_addr cx) /\
+  rs_router r = match cx_gw cx with
+                | Some g => Some g
+                | None => match pool with Some p => if pl_gw_set p then pl_gw p else pf_gw pf | None => pf_gw pf end end /\
+  rs_sid r = first_some (pf_sid pf) (rs_router r) /\
+  rs_dns r = match cx_dns cx with [] => filter (fun d : option bytes => match d with Some _ => true | None => false end) (pf_dns pf) | l => l end /\
+  rs_lease r = (if pf_lease pf =? 0 then 3600 else pf_lease pf) /\
+  (pf_unnumbered pf = true -> rs_mask r = [255;255;255;255] /\
+     rs_routes r = match rs_router r with Some _ => [(0, Some (v4in6_prefix ++ [0;0;0;0]), rs_router r)] | None => [] end) /\
+  (pf_unnumbered pf = false -> rs_routes r = [] /\
+     rs_mask r = match cx_mask cx with
+                 | Some m => m
+                 | None => match pool with Some p => match pl_net p with Some n => snd n | None => [] end | None => [] end end).
+Proof.
+  intros cx pf. cbv zeta. unfold resolve_v4. cbn [rs_yip rs_router rs_sid rs_dns rs_lease rs_mask rs_routes].
+  repeat split; try reflexivity; try (intros HH; rewrite HH; cbn [fst snd]; split; reflexivity); try (rewrite H; reflexivity).
+Qed.
+
+(* whatever branch ResolveV4 took: if what it resolved is IPv4-typed, the client decodes exactly those values *)
+Lemma resolve_reply_general : forall ovf pad xid ci hw mt cx pf s4,
+  let r := resolve_v4 cx pf in
+  xid < 4294967296 -> (length hw <= 16)%nat -> rs_lease r < 4294967296 -> ip_ok ci -> bytes_ok hw ->
+  ip_ok (rs_yip r) -> ip_ok (rs_router r) -> ip_ok (rs_sid r) -> bytes_ok (rs_mask r) -> Forall ip_ok (rs_dns r) ->
+  Forall route_ok (rs_routes r) -> Forall (fun x => ip_ok (snd (fst x)) /\ ip_ok (snd x)) (rs_routes r) -> Forall raw_ok (rs_opts r) ->
+  to4 (match rs_sid r with Some _ => rs_sid r | None => rs_router r end) = Some s4 ->
+  exists rt payload view,
+    (blen payload <= 65507 ->
+       exists f, resolve_and_reply Repaired ovf pad xid ci hw mt cx pf = Ok (Some f) /\
+                 frame4_ok f payload /\ frame4_fields f s4 bcast 67 68 /\ firstn 2 (skipn 26 f) <> [0; 0]) /\
+    ref_decode4 payload = Some view /\ v_xid view = xid /\ v_yiaddr view = ip4_field (rs_yip r) /\ v_siaddr view = s4 /\
+    v_end view = EndSeen (zeros pad) /\
+    (forall code, opt_value code (v_opts view) =
+       concat (map snd (filter (has_code code) ((53, [mt mod 256]) ::
+          resolved_opts (rs_lease r) (rs_mask r) (rs_sid r) (rs_router r) (rs_dns r) rt (rs_routes r) (rs_opts r))))) /\
+    ((length (rs_mask r) <= 255)%nat -> (length (dns_data (rs_dns r)) <= 255)%nat -> (length rt <= 255)%nat ->
+       v_opts view = (53, [mt mod 256]) :: resolved_opts (rs_lease r) (rs_mask r) (rs_sid r) (rs_router r) (rs_dns r) rt (rs_routes r) (rs_opts r)).
+Proof.
+  intros ovf pad xid ci hw mt cx pf s4 r Hx Hhw Hl Oci Bhw Oy Or Os Bm Od Hro Hrb Hraw Hsrc.
+  destruct (resolved_reply ovf pad xid ci hw mt (rs_yip r) (rs_router r) (rs_sid r) (rs_mask r) (rs_dns r) (rs_lease r) (rs_routes r) (rs_opts r)
+              _ s4 Hx Hhw Hl Oci Oy Or Os Bhw Bm Od Hro Hrb Hraw eq_refl Hsrc)
+    as [rt [payload [view [_ [_ [Ep [Bp [Hframe [Ev [V1 [V2 [V3 [V4 [V5 [V6 [V7 [V8 V9]]]]]]]]]]]]]]]]].
+  exists rt, payload, view. repeat split; try assumption.
+Qed.
